@@ -23,9 +23,12 @@
    Spec's locality (spec_decode_agree), the `to_bytes` length check cannot fail (run_edef_of_def), the name lookup of
    `_call_encode_function` (find_encoder_of_def; table fact: a dispatched PGN has no plain encode_pgn_<PGN>), the wire round
    trips of C06 (WireProofs), E2E_any_entry / E2E_undispatched (OblE2E), C03 inverse_run.
-   Not covered (stated): the address claim 60928 (its decoding updates the source map: E2E_claim), definitions outside
-   C02_roundtrip (129029: 64-bit fields), definitions without fixed Length (12, repeating fields: the generated `to_bytes` uses the
-   minimal length), Yacht Devices text (same frames as EByte; its text round trip is C06 roundtrip_yd). *)
+   Not covered (stated; the second Eval below lists them with the reason): the address claim 60928 (its decoding updates the
+   source map: E2E_claim; it is not encodable today), definitions outside C02_roundtrip (129029: 64-bit fields), definitions
+   without fixed Length (12, repeating fields: the generated `to_bytes` uses the minimal length — an all-zero message becomes an
+   EMPTY payload, which `decode_actisense_string` rejects: finding ence2e:acti:empty-payload), a definition of a dispatched PGN
+   for which neither criterion of `sel_kept` shows that the Match rule still selects it (1 of 126720), Yacht Devices text (same
+   frames as EByte; its text round trip is C06 roundtrip_yd). *)
 From NV Require Import Base Bits Defn PyNum Fields Dispatch DispatchProofs Template TemplateEnc Encode Spec SpecProofs
                        EncodeProofs FloatRT RoundTrip Header HeaderProofs PyText Wire WireProofs FastPacket FastPacketProofs
                        DecoderCtl EndToEnd EndToEndProofs EncEndToEnd EncEndToEndProofs.
